@@ -120,6 +120,8 @@ pub struct Ctx {
     pub level: Mutex<String>,
     pub assumptions: Mutex<Vec<String>>,
     pub strict: bool,
+    /// proptest shrink iterations per failing shard (lower it for expensive cases)
+    pub shrink_iters: AtomicU64,
 }
 
 fn hash_str(s: &str) -> u64 {
@@ -193,9 +195,13 @@ impl Ctx {
             level: Mutex::new("exploration".to_string()),
             assumptions: Mutex::new(Vec::new()),
             strict: std::env::var("VERIF_STRICT").is_ok(),
+            shrink_iters: AtomicU64::new(400),
         }
     }
 
+    pub fn set_shrink_iters(&self, n: u64) {
+        self.shrink_iters.store(n, Ordering::Relaxed);
+    }
     pub fn set_rule(&self, r: &str) {
         *self.rule.lock().unwrap() = r.to_string();
     }
@@ -381,7 +387,7 @@ impl Ctx {
                         cases: per,
                         failure_persistence: None,
                         rng_seed: RngSeed::Fixed(sseed),
-                        max_shrink_iters: 400,
+                        max_shrink_iters: self.shrink_iters.load(Ordering::Relaxed) as u32,
                         max_global_rejects: 100_000,
                         ..Config::default()
                     };
